@@ -108,7 +108,7 @@ def theorem_names(pid):
     # strip comments
     src = re.sub(r"/-.*?-/", "", src, flags=re.S)
     src = re.sub(r"--.*", "", src)
-    return re.findall(r"^theorem\s+([A-Za-z0-9_'.]+)", src, flags=re.M)
+    return re.findall(r"^theorem\s+([^\s:({\[]+)", src, flags=re.M)
 
 
 def audit(ctx, extra_modules=()):
